@@ -39,3 +39,12 @@ static size_t ref_oer(const struct tval *t, uint8_t *out, size_t cap) {
     oer_len(&o, nb + 1); rb_put(&o, (uint8_t)(nb * 8 - t->nbits)); rb_puts(&o, t->b, nb);   /* X.696 13.3 */
     return o.n;
 }
+
+/* ---- C06: garbage in the unused bits of the last octet ---- */
+#define TV_HAS_ALT 1
+struct talt { uint8_t noise; };
+static int talt_valid(const struct talt *a) { (void)a; return 1; }
+static void tv_build_alt(const struct tval *v, const struct talt *a, TYPE_T *o, struct tv_store *s) {
+    tv_build(v, o, s);
+    if(o->size && o->bits_unused) s->b[o->size - 1] |= (uint8_t)(a->noise & ((1u << o->bits_unused) - 1));
+}
